@@ -36,6 +36,11 @@ func (lr *LexerReader) Read() rune {
 		return lr.char
 	}
 
+	// NUL is the in-band end-of-input marker, so stray NUL runes are skipped
+	for lr.pos < len(lr.runes) && lr.runes[lr.pos] == 0 {
+		lr.pos++
+	}
+
 	if lr.pos >= len(lr.runes) {
 		lr.char = 0
 		return 0
